@@ -65,8 +65,10 @@ func initScratch() {
 		fatalInfra("scratch dir: %v", err)
 	}
 	scratchDir = d
+	// a closed stdout (e.g. `| head`) must not kill the process before it cleaned up
+	signal.Ignore(syscall.SIGPIPE)
 	c := make(chan os.Signal, 1)
-	signal.Notify(c, os.Interrupt, syscall.SIGTERM)
+	signal.Notify(c, os.Interrupt, syscall.SIGTERM, syscall.SIGHUP)
 	go func() {
 		<-c
 		cleanup()
